@@ -10,4 +10,7 @@ def main(ctx):
                    ("static", 600 if ctx.thorough else 60, "--q DS --cert 0 --large")],
         rule="skeptical acceptance of single arguments (GR, ST, PR, SST, STG, ID solver types; DS-CO is GR by dispatch) x selectable encoders on all frameworks with <= %d arguments exhaustively (every argument), generated frameworks (incl. the grounded-insensitive 'pairs_funnel' motif and components without stable extension) and large ones (replay only); traces replayed on Model.Solvers; status judged by brute force (skepb from Spec.AF), including YES for every argument when no stable extension exists"
              % 3,
+        finish=False, extra_props=("C03poly", "C03polytop"),
     )
+    poly_oracle_tie(ctx)
+    ctx.finish()
